@@ -2,7 +2,8 @@
 import ast
 
 from .common import *
-from ..interp import truth
+from ..interp import truth, pure_sym, Unsupported
+from ..load import AnchorMissing
 
 CONVERTER = "RevolveCheckpointSchedule"
 UNIT_PARAMS = ("snapshots", "snapshots_in_ram", "snapshots_on_disk", "binomial_snapshots")
@@ -354,8 +355,40 @@ def rule_adv(chk, rid, runs, names=("n_advance", "mixed_step_memoization")):
                 if not early:
                     chk.decide(rid, cons, None, "steps argument not linear", rel=run_.rel, node=node)
                 continue
-            cands = [N] + [Lin.sym(top_syms(it, c)) for c in sorted(it.containers)] + \
-                [Lin.sym(f"popped({c})") for c in sorted(it.containers)]
+            # the advance starts where the forward state is when the planner is asked (C01.START: the Forward that
+            # follows starts at n); a stack element is an admissible reference only while it is that position
+            mentioned = set()
+            argnode = None
+            if isinstance(node, ast.Call) and node.args:
+                argnode = node.args[0]
+            elif isinstance(node, ast.Subscript):
+                argnode = node.slice.elts[0] if isinstance(node.slice, ast.Tuple) and node.slice.elts else node.slice
+            if argnode is not None:
+                for x_ in ast.walk(argnode):
+                    if isinstance(x_, ast.Name):
+                        mentioned.add(x_.id)
+                    elif isinstance(x_, ast.Attribute) and isinstance(x_.value, ast.Name) and x_.value.id == "self":
+                        mentioned.add("self." + x_.attr)
+            # a parameter of an inlined helper stands for the argument it was called with
+            psrc = getattr(it, "param_src", {})
+            for _ in range(3):
+                for v in list(mentioned):
+                    if v in psrc:
+                        for x_ in ast.walk(psrc[v]):
+                            if isinstance(x_, ast.Name):
+                                mentioned.add(x_.id)
+                            elif isinstance(x_, ast.Attribute) and isinstance(x_.value, ast.Name) and x_.value.id == "self":
+                                mentioned.add("self." + x_.attr)
+            mentioned -= {"self._max_n", "self._r", "self"}
+
+            def admissible(x):
+                # a stack element is a reference position if it is the forward position, or if the argument is written
+                # relative to it (the planner is asked what would happen from that checkpoint)
+                if st.entails_eq(x - N) == "yes":
+                    return True
+                return any(st.entails_eq(Lin.sym(v) - x) == "yes" for v in mentioned)
+            cands = [N] + [x for x in [Lin.sym(top_syms(it, c)) for c in sorted(it.containers)] +
+                           [Lin.sym(f"popped({c})") for c in sorted(it.containers)] if admissible(x)]
             verdict, why = None, ""
             consts = []
             for x in cands:
@@ -367,6 +400,14 @@ def rule_adv(chk, rid, runs, names=("n_advance", "mixed_step_memoization")):
                     consts.append(r[1])
             if verdict is None and consts:
                 verdict, why = False, f"off by the constant {consts[0]} from max_n - r - (current step)"
+            elif verdict is None:
+                # provably different from max_n - r - x for every admissible position x
+                def nonzero(d):
+                    return st.entails_neq(d) or st.entails_ineq(d - ONE) or st.entails_ineq(-d - ONE)
+                live_c = [x for x in cands if not (pure_sym(x) and pure_sym(x) not in st.symbols())]
+                if live_c and all(nonzero(steps - (M - R - x)) for x in live_c):
+                    verdict, why = False, (f"provably different from max_n - r - (current step): the difference "
+                                           f"{st.reduce(steps - (M - R - N))} cannot be zero here")
             elif verdict is None:
                 why = f"residual {st.reduce(steps - (M - R - N))}"
             if early and verdict is not False:
@@ -529,3 +570,58 @@ def rule_config(chk, rid, ctx, classes=None, mode="eq"):
 
 
 REFUTED_ = "REFUTED"
+
+
+# ------------------------------------------------------------------ declared budgets
+def rule_declared(chk, rid, ctx, classes=None):
+    """the unit counts a schedule works with never exceed the ones it was constructed with: in every exactly
+    evaluated constructor outcome the stored unit attribute is at most the parameter it is named after"""
+    chk.describe(rid, "the stored unit counts never exceed the constructor arguments they are named after")
+    repo = ctx.repo
+    for cname in (classes or ctx.model.concrete_classes()):
+        try:
+            rel, c, f = repo.resolve_method(cname, "__init__")
+        except AnchorMissing:
+            continue
+        params = {a.arg for a in f.args.args} | {a.arg for a in f.args.kwonlyargs}
+        units = sorted(p for p in params if p in UNIT_PARAMS)
+        if not units:
+            continue
+        try:
+            rel2, c2, f2, it = ctx.model.init_run(cname, exact=True)
+        except Unsupported:
+            continue
+        for p in units:
+            attr = Lin.sym("self._" + p)
+            par = Lin.sym(p)
+            cons = f"{rel[:-3]}.{cname}.__init__#declared-{p}"
+            verdicts = []
+            for o in it.outcomes:
+                if o.kind not in ("end", "return"):
+                    continue
+                st = o.state
+                if ("self._" + p) not in st.symbols() and st.enum_get("self._" + p) is None:
+                    verdicts.append((None, "the attribute is not a tracked integer"))
+                    continue
+                if st.enum_is("self._" + p, "None") == "yes" or st.enum_is(p, "None") == "yes":
+                    continue
+                if st.entails_ineq(par - attr):
+                    verdicts.append((True, "stored <= declared"))
+                    continue
+                s2 = st.copy()
+                s2.add_ineq(attr - par - ONE)
+                if s2.bottom or s2.infeasible():
+                    verdicts.append((True, "stored <= declared"))
+                else:
+                    w = s2.reduce(attr - par)
+                    verdicts.append((False, f"an accepted argument region stores more units than declared "
+                                            f"(self._{p} - {p} = {w} >= 1 is feasible there, e.g. for the smallest accepted {p})"))
+            if not verdicts:
+                continue
+            if any(v[0] is False for v in verdicts) and not getattr(it, "fuzzy", None):
+                bad = next(v for v in verdicts if v[0] is False)
+                chk.decide(rid, cons, False, f"{cname}: " + bad[1], rel=rel, node=f)
+            elif all(v[0] is True for v in verdicts):
+                chk.decide(rid, cons, True, f"{cname}: self._{p} <= {p} in all {len(verdicts)} constructor outcomes", rel=rel, node=f)
+            else:
+                chk.decide(rid, cons, None, f"{cname}: " + next(v[1] for v in verdicts if v[0] is not True), rel=rel, node=f)
